@@ -264,6 +264,9 @@ def monitorE2e (cfg : E2eCfg) (st : E2eState) (op : SOp) (seg : List String) : O
            | some r, some m => if dataProtected && r.idx < m then some "data-handshake-before-transfer-command-accepted" else none
            | some _, none => if dataProtected then some "data-handshake-before-transfer-command-accepted" else none
            | none, _ => none) <|>
+          -- certificate verification at the data handshake: a data peer with a certificate of an unknown CA is refused
+          -- whenever the control connection verifies its peer ("a handshake or certificate verification failure is reported")
+          (if dataProtected && cfg.verifyPeer && (op.groups.any (·.dataOtherCert)) && returned then some "untrusted-data-peer-accepted" else none) <|>
           -- truncation: a protected download whose stream ends without close-notify is an error
           (if dataProtected && (op.groups.any (·.truncate)) && (op.name = "get" || op.name = "list") && returned then some "truncated-tls-stream-delivered-as-complete" else none) <|>
           -- secrets never in the clear
